@@ -51,6 +51,8 @@ func c07alphabet() []string {
 		gw.EvC("PUBLISH(q0,predef 1)", gw.Publish(1, 1, 0, 0, false, false, "x")),
 		gw.EvB("CONNACK(0)", refmqtt.EncConnack(0)),
 		gw.EvB("CONNACK(5)", refmqtt.EncConnack(5)),
+		gw.EvB("CONNACK(2)", refmqtt.EncConnack(2)),
+		gw.EvB("CONNACK(6 reserved)", refmqtt.EncConnack(6)),
 	)
 	sortStrings(a)
 	return a
